@@ -1098,8 +1098,16 @@ func (ctx *Context) evaluate() {
 				return
 			}
 
-			num, rollCount, _, detailText, exceeded := rollWoDLimited(ctx.RandSrc, addLine, wodState.pool, wodState.points, wodState.threshold, wodState.isGE, getRollMode(), remainOpCount())
-			if numOpCountAdd(rollCount) || exceeded {
+			// 骰池先计费(与 XdY 一致，超限则不骰)，加骰部分骰完后补计
+			if numOpCountAdd(wodState.pool) {
+				return
+			}
+			maxRolls := remainOpCount()
+			if maxRolls > 0 {
+				maxRolls += wodState.pool
+			}
+			num, rollCount, _, detailText, exceeded := rollWoDLimited(ctx.RandSrc, addLine, wodState.pool, wodState.points, wodState.threshold, wodState.isGE, getRollMode(), maxRolls)
+			if numOpCountAdd(rollCount-wodState.pool) || exceeded {
 				if ctx.Error == nil {
 					ctx.Error = errors.New("允许算力上限")
 				}
@@ -1137,8 +1145,15 @@ func (ctx *Context) evaluate() {
 			if !doubleCrossCheck(ctx, addLine, dcState.pool, dcState.points) {
 				return
 			}
-			success, rollCount, _, detailText, exceeded := rollDoubleCrossLimited(ctx.RandSrc, addLine, dcState.pool, dcState.points, getRollMode(), remainOpCount())
-			if numOpCountAdd(rollCount) || exceeded {
+			if numOpCountAdd(dcState.pool) {
+				return
+			}
+			maxRolls := remainOpCount()
+			if maxRolls > 0 {
+				maxRolls += dcState.pool
+			}
+			success, rollCount, _, detailText, exceeded := rollDoubleCrossLimited(ctx.RandSrc, addLine, dcState.pool, dcState.points, getRollMode(), maxRolls)
+			if numOpCountAdd(rollCount-dcState.pool) || exceeded {
 				if ctx.Error == nil {
 					ctx.Error = errors.New("允许算力上限")
 				}
